@@ -119,6 +119,9 @@ def _truthy(v):
     return not (v is None or v is False or v == 0)
 
 
+_SERVER = [(4, 4, 0)]          # version of the server whose collection is being queried (set by the collection methods)
+
+
 def _eval(expr, doc, variables):
     if isinstance(expr, str):
         if expr.startswith('$$'):
@@ -160,6 +163,8 @@ def _eval(expr, doc, variables):
                     out.append(_eval(arg['in'], doc, v2))
                 return out
             if op == '$regexMatch':
+                if _SERVER[0] < (4, 2, 0):
+                    raise OperationFailure("Unrecognized expression '$regexMatch'")       # new in MongoDB 4.2
                 inp = _eval(arg['input'], doc, variables)
                 rx = _eval(arg['regex'], doc, variables)
                 if inp is None or rx is None:
@@ -222,6 +227,9 @@ class FakeCollection:
 
     def aggregate(self, pipeline):
         self._maybe_fail('aggregate')
+        if not isinstance(pipeline, (list, tuple)):
+            raise TypeError('pipeline must be a list')                  # as pymongo does
+        _SERVER[0] = tuple(int(x) for x in self.db.client.version.split('.')[:3])
         docs = list(self.docs)
         for stage in pipeline:
             (op, arg), = stage.items()
